@@ -48,6 +48,7 @@ CODE_TEXT = {
 }
 
 FIXED = [
+    "def h(x, y=0):\n    return x + y\ny = 2\nprint(f'{h(1, y=4)} y', f'{h(x=y, y=y)}', h(y=y))\n",
     'width = 8\nvalue = 3.5\nprint(f"{value:{width}.2f}|{value!r:>{width}}", f"{f\'{width}\'}")\nprint(width)\n',
     "x = 1\ndef f(a, b=2, *c, **d):\n    y = a\n    return y + x\nf(1, b=x)\nprint(f(a=x, b=3))\n",
     ("class A:\n    y = 1\n    def __init__(self, v):\n        self.x = v\n        self.y = v\n    def m(self):\n"
@@ -83,7 +84,18 @@ def case_file(obs):
 def coq_results(ctx, obs, chunk=40):
     """per observed module: (code, stats, {token id: reason}, in C15 fragment)"""
     bodies = [case_file(obs[i:i + chunk]) for i in range(0, len(obs), chunk)]
-    outs = ctx.coq_files_parallel(bodies) if len(bodies) > 1 else [ctx.coq_file(b) for b in bodies]
+    for attempt in range(4):
+        try:
+            outs = ctx.coq_files_parallel(bodies) if len(bodies) > 1 else [ctx.coq_file(b) for b in bodies]
+            break
+        except RuntimeError as e:
+            # the .vo files of the shared development are being rebuilt by a concurrent build (coqc: Sys_error /
+            # inconsistent assumptions): wait and evaluate the same case files again; anything else is an error
+            if attempt == 3 or not ("Sys_error" in str(e) or "inconsistent assumptions" in str(e)
+                                    or "Cannot find a physical path" in str(e)):
+                raise
+            import time
+            time.sleep(8)
     res = []
     for k, out in enumerate(outs):
         n = len(obs[k * chunk:(k + 1) * chunk])
